@@ -24,7 +24,7 @@ import (
 )
 
 func init() {
-	register(&Scenario{Name: "sysws", Props: []string{"C20", "C16", "C13"}, Kind: "system", Run: runSysWS})
+	register(&Scenario{Name: "sysws", Props: []string{"C20", "C16", "C13", "C05"}, Kind: "system", Run: runSysWS})
 }
 
 type wsEnd struct {
@@ -376,6 +376,37 @@ func runSysWS(x *X) {
 			}
 		}
 		x.Probe("ws-accounting-checked")
+		client.mu.Lock()
+		backend.mu.Lock()
+	}
+	// ---- C05: a finished tunnel leaves no trace in the in-flight counts ---------------------------
+	// After the session is over, one slow request is held in flight and a second one arrives: under
+	// least_connections with two backends it goes to the other backend.
+	if done && x.Want("C05") && o.strategy == "least_connections" && o.nBackends == 2 {
+		client.mu.Unlock()
+		backend.mu.Unlock()
+		waitQuiet()
+		c1, c2 := env.addClient("198.51.100.61:42001"), env.addClient("198.51.100.62:42002")
+		mk := func(cl *sClient, target string, hold time.Duration) *exchange {
+			ex := env.newExchange(cl)
+			ex.method, ex.target = "GET", target
+			ex.hdr = append(ex.hdr, hdrKV{"X-API-Key", "k"})
+			ex.resp = &respScript{status: 200, framing: "cl", hdr: []hdrKV{{"Content-Type", "application/octet-stream"}}, body: []byte("after the tunnel")}
+			if hold > 0 {
+				ex.resp.steps = []respStep{{kind: "sleep", d: hold}}
+			}
+			return ex
+		}
+		held := mk(c1, "/held", 3*time.Second)
+		second := mk(c2, "/second", 0)
+		second.pause = 500 * time.Millisecond
+		env.drive(driveOpts{maxVirtual: time.Minute})
+		if len(held.seen) == 1 && len(second.seen) == 1 && second.seen[0].at < held.seen[0].at+3*time.Second {
+			x.Probe("lc-after-tunnel-checked")
+			if held.seen[0].backend == second.seen[0].backend {
+				x.Violate("C05", "C05/lc-not-minimal{after-a-finished-tunnel}", "after a WebSocket session had ended, a request was held in flight on %s and the next request was sent to %s as well although the other backend was idle (least_connections, 2 backends)", held.seen[0].backend, second.seen[0].backend)
+			}
+		}
 		client.mu.Lock()
 		backend.mu.Lock()
 	}
